@@ -13,7 +13,7 @@ RULE = ("Generated trees with arbitrary version sets (empty, sparse, contiguous,
 ASSUME = ["get_new on a Sid that carries a concrete version while NO version exists is not judged (statement silent)",
           "the version key is 'version' and its pattern is a literal prefix followed by digits (read from the configuration)",
           "existing = R7 (path-backed levels from the tree, state level from the configured constants)"]
-BUDGET = {"quick": (160, 24, 6), "thorough": (3200, 36, 8)}     # universes, sids per universe, history steps
+BUDGET = {"quick": (160, 24, 6), "thorough": (12800, 36, 8)}     # universes, sids per universe, history steps
 NSHARDS = 16
 
 
